@@ -278,6 +278,7 @@ def plot_run_affordable(settings):
                 and 0.5 <= x <= 16 for x in fs)):
             return False
         for k, lo, hi in (("plot_fontscale", 0.1, 8), ("plot_linewidth", 0, 40),
+                          ("plot_3d_zoom", 0.05, 10),
                           ("plot_axis_marker_scale", 0, 100),
                           ("plot_reference_axis_marker_scale", 0, 100)):
             x = settings[k]
@@ -823,7 +824,8 @@ class C18(Check):
                         rng.choice(["y", "n", "", "yes", "Y"])]})
             elif r < 0.56:
                 ops.append({"op": "reset_subset",
-                            "keys": rng.sample(keys, rng.randint(1, 5))})
+                            "keys": rng.sample(keys, rng.randint(1, 5)),
+                            "yes_flag": rng.random() < 0.35})
             elif r < 0.60:
                 ops.append({"op": "show", "brief": rng.random() < 0.5,
                             "params": rng.sample(keys, rng.randint(0, 2))})
@@ -1221,7 +1223,12 @@ class C18(Check):
             return v or self._compare_disk(sim, model, "reset_all")
 
         if kind == "reset_subset":
-            argv = ["reset"] + nc + list(op["keys"])
+            # "-y" (never ask) is harmless with parameter names: a script
+            # may pass it always
+            argv = ["reset"] + (["-y"] if op.get("yes_flag") else []) + nc + \
+                list(op["keys"])
+            if op.get("yes_flag"):
+                sim.probe("reset_subset_with_yes_flag")
             results = self._run(sim, [{"cmd": "config", "argv": argv}])
             self._start_events(sim, model, res)
             for k in op["keys"]:
